@@ -73,6 +73,24 @@ def outcome (o : Op) : List Msg → Outcome
   | [] => .timeout
   | m :: ms => if hits o m then classify o m else outcome o ms
 
+/-! ## notify data -/
+
+/-- `on_bluetooth_gatt_notify_data_response(address, handle, cb, msg)`: the data callback of a started notify session runs
+for notify-data messages carrying its address AND handle, while it is registered -/
+structure DataMsg where
+  address : Nat
+  handle : Nat
+  data : Nat
+deriving DecidableEq, Repr
+
+inductive NEv | data (m : DataMsg) | remove     -- `remove` = stop_notify() or the remove_callback handed out
+deriving DecidableEq, Repr
+
+def notifyRun (a h : Nat) : Bool → List NEv → List Nat
+  | _, [] => []
+  | reg, .remove :: es => notifyRun a h false es
+  | reg, .data m :: es => (if reg ∧ m.address = a ∧ m.handle = h then [m.data] else []) ++ notifyRun a h reg es
+
 /-! ## device connect, timeout branch -/
 
 /-- `resp a c` = a `BluetoothDeviceConnectionResponse` for address `a` with `connected = c` -/
